@@ -7,6 +7,7 @@ import (
 	"go/types"
 	"os"
 	"path/filepath"
+	"regexp"
 	"sort"
 	"strings"
 
@@ -92,6 +93,9 @@ func describeValS(v ssa.Value, d int, seenPhi map[ssa.Value]bool) string {
 			return describeValS(x.Call.Value, d+1, seenPhi) + "." + name + "()"
 		} else if cal := x.Call.StaticCallee(); cal != nil {
 			name = cal.Name()
+			if cal.Parent() != nil {
+				name = "func" // closures are numbered by position: not a name
+			}
 		}
 		var args []string
 		for _, a := range x.Call.Args {
@@ -145,6 +149,44 @@ func normCond(bo *ssa.BinOp) string {
 	return ""
 }
 
+var condTokenRe = regexp.MustCompile(`[A-Za-z_][A-Za-z0-9_]*|[0-9]+(?:\.[0-9]+)?|"[^"]*"|<\?|=\?=|.`)
+
+func condTokens(d string) []string { return condTokenRe.FindAllString(d, -1) }
+
+// pointMutation: "" unless b is a with one constant replaced, one field name replaced (by another existing field),
+// or the operands of the ordering swapped.
+func pointMutation(a, b string, vocabulary map[string]bool) string {
+	if i := strings.Index(a, " <? "); i > 0 && a[i+4:]+" <? "+a[:i] == b {
+		return "boundary moved"
+	}
+	ta, tb := condTokens(a), condTokens(b)
+	if len(ta) != len(tb) {
+		return ""
+	}
+	diff := -1
+	for i := range ta {
+		if ta[i] != tb[i] {
+			if diff >= 0 {
+				return ""
+			}
+			diff = i
+		}
+	}
+	if diff < 0 {
+		return ""
+	}
+	x, y := ta[diff], tb[diff]
+	isNum := func(s string) bool { return s[0] >= '0' && s[0] <= '9' }
+	isWord := func(s string) bool { return s[0] == '_' || (s[0] >= 'a' && s[0] <= 'z') || (s[0] >= 'A' && s[0] <= 'Z') }
+	switch {
+	case isNum(x) && isNum(y):
+		return "constant changed"
+	case isWord(x) && isWord(y) && diff > 0 && ta[diff-1] == "." && vocabulary[x]:
+		return "another field compared"
+	}
+	return ""
+}
+
 // condSigs: per function (closures included), the sorted multiset of normalised branch comparisons.
 func (c *Ctx) condSigs(pkgs []string) map[string][]string {
 	out := map[string][]string{}
@@ -157,7 +199,7 @@ func (c *Ctx) condSigs(pkgs []string) map[string][]string {
 			if strings.Contains(file, ".pb.go") || strings.Contains(file, "_string.go") {
 				continue
 			}
-			fk := ir.FuncKey(fn)
+			fk := ir.OuterKey(fn) // closures are folded into the function that contains them
 			// every comparison the function computes, whether it steers a branch or is stored / passed on as a flag
 			for _, b := range fn.Blocks {
 				for _, in := range b.Instrs {
@@ -168,8 +210,10 @@ func (c *Ctx) condSigs(pkgs []string) map[string][]string {
 					}
 				}
 			}
-			sort.Strings(out[fk])
 		}
+	}
+	for fk := range out {
+		sort.Strings(out[fk])
 	}
 	return out
 }
@@ -177,7 +221,7 @@ func (c *Ctx) condSigs(pkgs []string) map[string][]string {
 // ruleConditionRatchet: no branch comparison changed its operands or its boundary.
 func (c *Ctx) ruleConditionRatchet(rule string, pkgs []string, fileFilter func(string) bool, baselineFile string, min int) {
 	r := c.R
-	r.Rule(rule, "condition ratchet: the committed baseline records, per function, the multiset of comparisons it computes (branch conditions and comparison results stored or passed on as flags), each described by where its operands come from (parameters, field paths, constants, callee names) and normalised so that polarity and operand order do not matter (a==b ≡ a!=b, a<b ≡ a>=b ≡ b>a) but the boundary does (a<b ≠ a<=b). A function with the same number of comparisons of which some now compare something else — another variable or field, another constant, an off-by-one boundary — has had a condition changed. Functions whose number of comparisons changed are not decided", min)
+	r.Rule(rule, "condition ratchet: the committed baseline records, per function, the multiset of comparisons it computes (branch conditions and comparison results stored or passed on as flags), each described by where its operands come from (parameters, field paths, constants, callee names) and normalised so that polarity and operand order do not matter (a==b ≡ a!=b, a<b ≡ a>=b ≡ b>a) but the boundary does (a<b ≠ a<=b). A function with the same number of comparisons in which a recorded comparison was replaced by a point mutation of itself — one constant replaced, one field name replaced by another field that still exists (not a rename), or the boundary moved (a<b became a<=b or a>b) — has had a condition changed. Functions whose number of comparisons changed, or whose comparisons were restructured in any other way, are not decided", min)
 	var base map[string][]string
 	b, err := os.ReadFile(filepath.Join(homeDir(), baselineFile))
 	if err != nil || json.Unmarshal(b, &base) != nil {
@@ -185,6 +229,15 @@ func (c *Ctx) ruleConditionRatchet(rule string, pkgs []string, fileFilter func(s
 		return
 	}
 	cur := c.condSigs(pkgs)
+	// every word that occurs in some current comparison: a field name that vanished from all of them was renamed
+	vocabulary := map[string]bool{}
+	for _, l := range cur {
+		for _, d := range l {
+			for _, t := range condTokens(d) {
+				vocabulary[t] = true
+			}
+		}
+	}
 	var keys []string
 	for k := range base {
 		keys = append(keys, k)
@@ -239,8 +292,36 @@ func (c *Ctx) ruleConditionRatchet(rule string, pkgs []string, fileFilter func(s
 		sort.Strings(added)
 		if len(gone) == 0 {
 			r.Ok(rule, fk, cons, file, "unchanged")
+			continue
+		}
+		// Only point mutations are judged: every vanished comparison must have a counterpart that differs from it
+		// in one constant, in one field name, or in the boundary (operands of an ordering swapped). Anything else
+		// (operands re-derived after an extraction, an equality replaced by an ordering, ...) is a restructuring
+		// whose equivalence is not decidable here.
+		used := map[int]bool{}
+		var muts []string
+		all := true
+		for _, g := range gone {
+			found := false
+			for i, a := range added {
+				if used[i] {
+					continue
+				}
+				if kind := pointMutation(g, a, vocabulary); kind != "" {
+					used[i] = true
+					found = true
+					muts = append(muts, kind+": ["+g+"] became ["+a+"]")
+					break
+				}
+			}
+			if !found {
+				all = false
+			}
+		}
+		if !all || len(gone) > 2 {
+			r.Add(oblT(rule, fk, cons, file, "ok", "comparisons were restructured beyond a point change: not decided", nil, true))
 		} else {
-			r.Bad(rule, fk, cons, file, "a condition was changed: the reviewed tree tested ["+strings.Join(gone, "; ")+"], now ["+strings.Join(added, "; ")+"]")
+			r.Bad(rule, fk, cons, file, "a condition was changed — "+strings.Join(muts, "; "))
 		}
 	}
 }
